@@ -33,7 +33,7 @@ def floors(tier):
     return {"ruler.ops": 2000000 if q else 50000000, "ruler.raising_mutator_warm": 10000, "ruler.warm_mutations": 50000, "ruler.chains_compared": 1000000,
             "op.enable.raise": 1000, "op.disable.raise": 1000, "op.enableOnly.raise": 1000, "op.at.raise": 500, "op.before.raise": 500, "op.after.raise": 500,
             "ruler.duplicate_name_ops": 5000, "facade.histories": 30000 if q else 600000, "facade.rules_observed": 50000, "facade.raising_ops": 500,
-            "facade.reset_rules_exits": 500, "facade.plugin_rules": 500, "facade.model_checks": 100000}
+            "facade.reset_rules_exits": 500, "facade.plugin_rules": 500, "facade.model_checks": 100000, "facade.validation_mode_probes": 3000}
 
 
 # ---- (1) sequential model -------------------------------------------------------------------------------------
@@ -434,6 +434,33 @@ def run_facade_history(ctx, hist, record=True):
         obs = observe(md, extra)
     except Exception as e:
         return "facade-probe-exception", f"{type(e).__name__}: {e}"
+    # validation mode (skipToken, used while scanning link labels) must walk the same chain as normal mode: a rule registered in
+    # front of the inline chain that recognises "q]" as one unit keeps the label of [q] b](u) open
+    if "link" in act["inline"] and "text" in act["inline"] and not hist.get("_replaced"):
+        first = md.inline.ruler.get_all_rules()[0]
+
+        def qrule(state, silent):
+            if state.src.startswith("q]", state.pos):
+                if not silent:
+                    t = state.push("text", "", 0)
+                    t.content = "q]"
+                state.pos += 2
+                return True
+            return False
+        md.inline.ruler.before(first, "vf_qrule", qrule)
+        try:
+            toks = md.parseInline("[q] b](u)")
+            kids = toks[0].children or []
+            txt = "".join(c.content for c in kids if c.type == "text")
+            if not (kids and kids[0].type == "link_open" and kids[-1].type == "link_close" and txt == "q] b"):
+                return "facade-applied-ne-reported:validation-mode", ("the first active inline rule is not consulted while a link label is scanned in validation mode: "
+                                                                     f"[q] b](u) gave {[(c.type, c.content) for c in kids]}")
+            if record:
+                ctx.count("facade.validation_mode_probes")
+        except Exception as e:
+            return "facade-probe-exception", f"{type(e).__name__}: {e}"
+        md.inline.ruler.disable("vf_qrule")
+        act = md.get_active_rules()
     for chain in ("core", "block", "inline", "inline2"):
         # a built-in rule that was replaced through at() is observed under the plug-in's code object only
         got = obs[chain]
